@@ -153,6 +153,9 @@ def run(prog: Program, rep: Report, tier: str):
     rule_hook(prog, rep)
     rule_exact(prog, rep)
     rule_ctor(prog, rep)
+    # the distribution methods' shape check lives in the vectoriser: no public path may reach a core around it
+    from .c06 import rule_public_lift
+    rule_public_lift(prog, rep, "C13.exact")
     rule_truthy(prog, rep, "C13.truthy", lambda m: m.name.startswith("flowjax.bijections") or m.name in (
         "flowjax.utils", "flowjax.distributions"))
     from .c02 import rule_scalar
